@@ -860,6 +860,12 @@ pub fn build(w: &str, c: &Ctx) -> Result<Workload, String> {
                     "mutate { sys.Room { id:$room admin:[{verif_key:$k enabled:true}] authorisations:[{ id:$g rights:[{entity:\"ns.Q\" mutate_self:true mutate_all:false}] }] } }",
                     vec![pr("room", r.clone()), pr("g", b64(&c.g0)), pr("k", c.b_key.clone())],
                 ),
+                m(
+                    "one request holding a room mutation AND a row of that room",
+                    2,
+                    "mutate { sys.Room { id:$room authorisations:[{ id:$g rights:[{entity:\"ns.P\" mutate_self:true mutate_all:true}] }] } ns.P { room_id:$rr name:\"with the room mutation\" } }",
+                    vec![pr("room", r.clone()), pr("rr", r.clone()), pr("g", b64(&c.g0))],
+                ),
             ];
             Workload { groups: singles(reqs.len()), reqs }
         }
